@@ -1,7 +1,8 @@
-(* C04: the witness showing that the decoder of the present tree is NOT canonical
-   (DESIGN section 10, row b): the lexer turns `OP_NUMEQUAL OP_VERIFY` (9c 69) into the same
-   tokens as `OP_NUMEQUALVERIFY` (9d), so a script that is not the encoding of any
-   miniscript is accepted, and the miniscript returned re-encodes to different bytes. *)
+(* C04: the former counter-example to decode_canonical (DESIGN section 10, row b).  Until /repo
+   22fc180a the lexer turned `OP_NUMEQUAL OP_VERIFY` (9c 69) into the same tokens as
+   `OP_NUMEQUALVERIFY` (9d); the script below was accepted and re-encoded differently.  With the
+   repair mirrored in LexModel it is refused as NonMinimalVerify; the lemmas keep the witness as a
+   regression example and as non-vacuity examples for the hypotheses of the C04 theorems. *)
 From Coq Require Import Lia.
 From Verif Require Import DecodeModel.
 Local Open Scope N_scope.
@@ -25,7 +26,8 @@ Proof.
   intros k Hk. assert (k = 0 \/ k = 1) as [-> | ->] by lia; vm_compute; reflexivity.
 Qed.
 
-Lemma wit_decodes : decode_max wit_env wit_bytes = OOk wit_ms.
+(* the split form is refused by the lexer ... *)
+Lemma wit_split_rejected : decode_max wit_env wit_bytes = OErr (DeLex LeNonMinimalVerify).
 Proof. vm_compute. reflexivity. Qed.
 
 Lemma wit_reencodes_differently : encode wit_ke wit_ms <> wit_bytes.
@@ -34,20 +36,17 @@ Proof. vm_compute. discriminate. Qed.
 Lemma wit_well_typed : exists t, type_of wit_ms = ROk t /\ c_base (t_corr t) = BB.
 Proof. eexists. split; vm_compute; reflexivity. Qed.
 
-(* the canonical encoding itself decodes to the same miniscript: two byte strings, one AST *)
+(* ... while the canonical encoding decodes to the miniscript *)
 Lemma wit_canonical_also : decode_max wit_env (encode wit_ke wit_ms) = OOk wit_ms.
 Proof. vm_compute. reflexivity. Qed.
 
-Lemma decode_canonical_refuted_lemma :
-  exists (e : denv) (b : bytes) (m : ms),
-    (forall k, k < 2 -> d_key e (kb (d_ke e) k) = Some k) /\
-    decode_max e b = OOk m /\ encode (d_ke e) m <> b /\
-    decode_max e (encode (d_ke e) m) = OOk m.
+Lemma numequal_split_rejected_lemma :
+  (forall k, k < 2 -> d_key wit_env (kb (d_ke wit_env) k) = Some k) /\
+  decode_max wit_env wit_bytes = OErr (DeLex LeNonMinimalVerify) /\
+  decode_max wit_env (encode wit_ke wit_ms) = OOk wit_ms /\ encode wit_ke wit_ms <> wit_bytes.
 Proof.
-  exists wit_env, wit_bytes, wit_ms.
-  split; [exact wit_env_consistent|].
-  split; [exact wit_decodes|].
-  split; [exact wit_reencodes_differently|exact wit_canonical_also].
+  split; [exact wit_env_consistent|]. split; [exact wit_split_rejected|].
+  split; [exact wit_canonical_also|exact wit_reencodes_differently].
 Qed.
 
 (* the witness miniscript is well formed and its key environment sorts by permutation:
